@@ -244,7 +244,7 @@ pub fn spec(prop: &str) -> Option<PropSpec> {
             adversarial: true,
             uses_reference: false,
             check: Box::new(|c, _, out, _| check_c04_with(c.payload, out, c.tag_exempt, !c.plain)),
-            rule: "state space as C01 (canonical payloads with distinct values at sibling positions; for the duplicate-key payloads of the second source only key presence / absence and location existence are checked). For every execution under every explored answer script, every report is checked against the payload itself: the location resolves; kind/arity `actual` equals the value found there and is of a non-accepted kind / wrong length; a missing field is absent there; an unknown key is present there and not accepted; an unknown value is the string there; every hand-over location is the position of the direct child frame that failed (from the probe bracket structure) and a prefix of every report handed over; user functions receive their container's location.",
+            rule: "state space as C01 (canonical payloads with distinct values at sibling positions; for the duplicate-key payloads of the second source only key presence / absence and location existence are checked). For every execution under every explored answer script, every report is checked against the payload itself: the location resolves; kind/arity `actual` equals the value found there and is of a non-accepted kind / wrong length; a missing field is absent there; an unknown key is present there and not accepted; an unknown value is the string there; every hand-over location is the position of the direct child frame that failed (from the probe bracket structure) and a prefix of every report handed over; a report a container made below itself in its own frame (a failed field conversion held by a field-level error type) is never handed over at the container's own position; user functions receive their container's location.",
         },
         "C02" => {
             let cfg = RefCfg { asp: Aspects { status: true, value: false, reports: true, visited: true, calls: false }, report_class: any_class, call_class: any_call };
